@@ -50,8 +50,8 @@ PLAN = {
         "gen": [G("subst", "Gen_Fn_Subst.cfg")],
         "drive": [D("subst_fn", 2000, 100000), D("inst_subst", 800, 40000), D("deps_order", 300, 5000)],
     },
-    "C05": {"mc": [MC_INST], "drive": [D("evaluate", 2000, 100000)]},
-    "C06": {"mc": [MC_INST], "drive": [D("samples", 1000, 50000)]},
+    "C05": {"mc": [MC_INST], "gen": [G("evaluate", "Gen_Inst_Evaluate.cfg", module="Gen_Inst.tla")], "drive": [D("evaluate", 2000, 100000)]},
+    "C06": {"mc": [MC_INST], "gen": [G("samples", "Gen_Inst_Samples.cfg", module="Gen_Inst.tla")], "drive": [D("samples", 1000, 50000)]},
     "C07": {
         "schema": True,
         "mc": [M("wire", "MC_Wire.tla", "MC_Wire.cfg")],
@@ -66,13 +66,13 @@ PLAN = {
         "drive": [D("validate", 500, 20000)],
         "exhaustive_note": "every single fault (quick) / every ordered pair of faults (thorough) of two base instances: duplicate ids (vars; constraints within and across lists), undefined ids at each position, each required field unset, each invalid bound shape, repeated ids in hints",
     },
-    "C09": {"mc": [MC_INST], "drive": [D("penalty", 1000, 50000)]},
-    "C10": {"mc": [MC_INST], "drive": [D("with_parameters", 1500, 60000)]},
-    "C11": {"mc": [MC_POLY], "drive": [D("pubo", 1000, 40000)]},
-    "C12": {"mc": [M("logencode", "MC_LogEncode.tla", "MC_LogEncode.cfg")], "drive": [D("log_encode", 1000, 50000)]},
-    "C13": {"mc": [M("slack", "MC_Slack.tla", "MC_Slack.cfg", workers=12)], "drive": [D("slack", 1000, 40000)]},
-    "C14": {"mc": [MC_INST], "drive": [D("relax_restore", 600, 30000)]},
-    "C15": {"mc": [MC_INST, {"name": "best", "module": "MC_Best.tla", "cfg_quick": "MC_Best.cfg"}], "drive": [D("as_min", 500, 20000), D("best", 1500, 60000)]},
+    "C09": {"mc": [MC_INST], "gen": [G("penalty", "Gen_Inst_Penalty.cfg", module="Gen_Inst.tla")], "drive": [D("penalty", 1000, 50000)]},
+    "C10": {"mc": [MC_INST], "gen": [G("penalty", "Gen_Inst_Penalty.cfg", module="Gen_Inst.tla")], "drive": [D("with_parameters", 1500, 60000)]},
+    "C11": {"mc": [MC_POLY], "gen": [G("qubo", "Gen_Inst_Qubo.cfg", module="Gen_Inst.tla")], "drive": [D("pubo", 1000, 40000)]},
+    "C12": {"mc": [M("logencode", "MC_LogEncode.tla", "MC_LogEncode.cfg")], "gen": [G("logencode", "Gen_Inst_LogEncode.cfg", module="Gen_Inst.tla")], "drive": [D("log_encode", 1000, 50000)]},
+    "C13": {"mc": [M("slack", "MC_Slack.tla", "MC_Slack.cfg", workers=12)], "gen": [G("slack", "Gen_Inst_Slack.cfg", module="Gen_Inst.tla")], "drive": [D("slack", 1000, 40000)]},
+    "C14": {"mc": [MC_INST], "gen": [G("histories", "Gen_Inst_Histories.cfg", module="Gen_Inst.tla")], "drive": [D("relax_restore", 600, 30000)]},
+    "C15": {"mc": [MC_INST, {"name": "best", "module": "MC_Best.tla", "cfg_quick": "MC_Best.cfg"}], "gen": [G("best", "Gen_Inst_Best.cfg", module="Gen_Inst.tla")], "drive": [D("as_min", 500, 20000), D("best", 1500, 60000)]},
     "C17": {
 
         "gen": [G("mps", "Gen_Mps.cfg", module="Gen_Mps.tla"),
@@ -106,20 +106,20 @@ OWN = {
     "C02": {"arith": "*", "fn_info": "*"},
     "C03": {"partial_fn": "*", "inst_partial": "*", "commute": "*"},
     "C04": {"subst_fn": "*", "inst_subst": "*", "deps_order": "*"},
-    "C05": {"mc": [MC_INST], "drive": [D("evaluate", 2000, 100000)]},
-    "C06": {"mc": [MC_INST], "drive": [D("samples", 1000, 50000)]},
+    "C05": {"mc": [MC_INST], "gen": [G("evaluate", "Gen_Inst_Evaluate.cfg", module="Gen_Inst.tla")], "drive": [D("evaluate", 2000, 100000)]},
+    "C06": {"mc": [MC_INST], "gen": [G("samples", "Gen_Inst_Samples.cfg", module="Gen_Inst.tla")], "drive": [D("samples", 1000, 50000)]},
     "C08": {
         "gen": [G("faults", "Gen_Validate.cfg", module="Gen_Validate.tla")],
         "drive": [D("validate", 500, 20000)],
         "exhaustive_note": "every single fault (quick) / every ordered pair of faults (thorough) of two base instances: duplicate ids (vars; constraints within and across lists), undefined ids at each position, each required field unset, each invalid bound shape, repeated ids in hints",
     },
-    "C09": {"mc": [MC_INST], "drive": [D("penalty", 1000, 50000)]},
-    "C10": {"mc": [MC_INST], "drive": [D("with_parameters", 1500, 60000)]},
-    "C11": {"mc": [MC_POLY], "drive": [D("pubo", 1000, 40000)]},
-    "C12": {"mc": [M("logencode", "MC_LogEncode.tla", "MC_LogEncode.cfg")], "drive": [D("log_encode", 1000, 50000)]},
-    "C13": {"mc": [M("slack", "MC_Slack.tla", "MC_Slack.cfg", workers=12)], "drive": [D("slack", 1000, 40000)]},
-    "C14": {"mc": [MC_INST], "drive": [D("relax_restore", 600, 30000)]},
-    "C15": {"mc": [MC_INST, {"name": "best", "module": "MC_Best.tla", "cfg_quick": "MC_Best.cfg"}], "drive": [D("as_min", 500, 20000), D("best", 1500, 60000)]},
+    "C09": {"mc": [MC_INST], "gen": [G("penalty", "Gen_Inst_Penalty.cfg", module="Gen_Inst.tla")], "drive": [D("penalty", 1000, 50000)]},
+    "C10": {"mc": [MC_INST], "gen": [G("penalty", "Gen_Inst_Penalty.cfg", module="Gen_Inst.tla")], "drive": [D("with_parameters", 1500, 60000)]},
+    "C11": {"mc": [MC_POLY], "gen": [G("qubo", "Gen_Inst_Qubo.cfg", module="Gen_Inst.tla")], "drive": [D("pubo", 1000, 40000)]},
+    "C12": {"mc": [M("logencode", "MC_LogEncode.tla", "MC_LogEncode.cfg")], "gen": [G("logencode", "Gen_Inst_LogEncode.cfg", module="Gen_Inst.tla")], "drive": [D("log_encode", 1000, 50000)]},
+    "C13": {"mc": [M("slack", "MC_Slack.tla", "MC_Slack.cfg", workers=12)], "gen": [G("slack", "Gen_Inst_Slack.cfg", module="Gen_Inst.tla")], "drive": [D("slack", 1000, 40000)]},
+    "C14": {"mc": [MC_INST], "gen": [G("histories", "Gen_Inst_Histories.cfg", module="Gen_Inst.tla")], "drive": [D("relax_restore", 600, 30000)]},
+    "C15": {"mc": [MC_INST, {"name": "best", "module": "MC_Best.tla", "cfg_quick": "MC_Best.cfg"}], "gen": [G("best", "Gen_Inst_Best.cfg", module="Gen_Inst.tla")], "drive": [D("as_min", 500, 20000), D("best", 1500, 60000)]},
     "C17": {"mps_load": "*"},
     "C18": {"mps_roundtrip": "*"},
     "C19": {"qplib_load": "*"},
